@@ -292,7 +292,7 @@ def run(ctx, report):
                         dsts = [a.src for a in tmpl if a.kind == 'Aff' and a.dst == op0]
                         if dsts and xz != dsts[0]:
                             # shld: a = cond(shifter, c, a) while flags use c -- accept when the result occurs inside the stored value
-                            inner = any(x == xz for x in walk_terms(dsts[0]))
+                            inner = dsts[0].kind == 'Cond' and xz in (dsts[0].src1, dsts[0].src2)
                             if not inner:
                                 R3.violation(iid, 'znp:%s' % key_base, '%s: zf is computed from %s but the destination receives %s'
                                              % (name, show(xz)[:80], show(dsts[0])[:80]), where(sem, inst.func.node), count=False)
